@@ -24,6 +24,7 @@ def make_cases_for(tier, seed):
         yield from (((("A",) + cid), p) for cid, p in gen_forms.form_programs())
         yield from (((("A",) + cid), p) for cid, p in G.length_programs(seed, compatible_cases=True, max_len=6 if quick else 9))
         yield from (((("A",) + cid), p) for cid, p in G.switch_programs(seed, compatible_cases=True, big=not quick))
+        yield from (((("A",) + cid), p) for cid, p in G.cross_programs(seed, compatible_cases=True))
         # (B) other layouts of flow graphs: all well-formed routine sets
         for iv, shape in enumerate(GS.shapes(SSB_KINDS_QUICK, 3 if quick else 4, 2, wellformed=True)):
             yield ("B", iv % 5 if iv % 11 else 99, shape), shape
@@ -44,7 +45,7 @@ def rule_text(tier):
             + ("REDUCED N=3" if quick else "FULL N=3, TINY N=4") + "; all if/elseif/else chains with 2-3 branches whose blocks are "
             "empty / plain / leave the routine / jump behind the chain, or-groups of 1-3 conditions; G-forms; G-lengths: a switch / if whose two "
             "branch bodies have 0..2 against 0.." + ("6" if quick else "9") + " ops, as body of or in front of / behind forever / while / for loops (7 block kinds x 10 placements); G-switch: every switch with 3 "
-            + ("" if quick else "(and 4) ") + "cases x 7 body kinds per case (break only, op + break, op + return, jump behind the switch, fall through ..) x default none / last / grouped) and (B) every well-formed G-ssb routine set with <= "
+            + ("" if quick else "(and 4) ") + "cases x 7 body kinds per case (break only, op + break, op + return, jump behind the switch, fall through ..) x default none / last / grouped); G-cross: labels reached only from another routine) and (B) every well-formed G-ssb routine set with <= "
             + ("3" if quick else "4") + " ops in <= 2 routines over {op, branch, jump, return, end, call, switch, case} (every jump "
             "target, every split, unreachable ops, cross-routine jumps, routines starting with a Jump), single routines with "
             + ("4" if quick else "4-5") + " ops over {op, branch, jump, end}, sets with context ops / hold, and (F) 38 sets that take the "
